@@ -486,7 +486,9 @@ func g14VisitContinues(r *Repo, rep *Report) {
 	if ps := fi.Decl.Type.Params; ps != nil && len(ps.List) == 1 && len(ps.List[0].Names) == 1 {
 		nodeParam = info.Defs[ps.List[0].Names[0]]
 	}
-	if recv == nil || nodeParam == nil {
+	// the visitor written as a function literal for ast.Inspect: the walk continues into the children when it returns true
+	inspectForm := fi.Decl.Recv == nil
+	if (recv == nil && !inspectForm) || nodeParam == nil {
 		rep.fail(Finding{Rule: "G14", Key: "G14|visit|shape", Kind: "undecided", Where: []string{r.pos(fi.Decl.Pos())}, Msg: "(*finder).Visit: receiver or node parameter is unnamed"})
 		return
 	}
@@ -538,7 +540,10 @@ func g14VisitContinues(r *Repo, rep *Report) {
 		n++
 		good := false
 		if len(rs.Results) == 1 {
-			if id, ok := ast.Unparen(rs.Results[0]).(*ast.Ident); ok && info.Uses[id] == recv {
+			if id, ok := ast.Unparen(rs.Results[0]).(*ast.Ident); ok && !inspectForm && info.Uses[id] == recv {
+				good = true
+			}
+			if tv, ok := info.Types[rs.Results[0]]; ok && inspectForm && tv.Value != nil && tv.Value.String() == "true" {
 				good = true
 			}
 		}
